@@ -215,6 +215,81 @@ CLAIMED = {
               "share Boxed_Value handles by design)."),
         technique="record-completeness rule, who-may-write rule over resolved access paths, published-container immutability, lock-mode rule",
         ref="DESIGN.md section 4 C15"),
+    "C02": dict(
+        text=("Decides three necessary conditions of 'the optimizer never changes what a program does' (the full equivalence - "
+              "translation validation of nine passes over all programs - is not claimed): (1) code generated by the optimizer "
+              "publishes no object that dies with the generated closure: every non-owning Boxed_Value and every add_object "
+              "argument in chaiscript::optimizer is classified by referent (automatic / catch / handle-owned = violation); "
+              "(2) contains_var_decl_in_scope agrees with the evaluator, child by child: every node kind whose eval_internal "
+              "adds a variable outside a scope guard of its own is in the declaration test, and a node kind is skipped by the "
+              "search only for the children it evaluates inside its own Scope_Push_Pop (facts extracted from all 42 "
+              "eval_internal bodies); one obligation of this rule - calls that evaluate text in the caller's scope (eval, "
+              "use) declare too - fails on the current tree and is a listed known finding with replay; (3) no exception can "
+              "leave Optimizer::optimize: exception flow over the 845 functions it reaches, with guard-aware call sites "
+              "(boxed_cast after a type test, dynamic_cast after an identifier test, Boxed_Number after is_arithmetic()) and "
+              "the checked invariant that no Get_Type_Info instantiation flags bool as arithmetic."),
+        technique="referent classification (escape rule), cross-module table agreement between optimizer predicate and evaluator bodies, interprocedural exception flow with dominating-fact call-site filters",
+        ref="DESIGN.md section 4 C02"),
+    "C03": dict(
+        text=("Decides the skeleton the documented semantics rests on, as tables and shapes extracted from parser and evaluator "
+              "and compared with the C reference: the 12 operator groups and their order equal C's levels, the group "
+              "selectors map level k to group k, every binary level recurses one level tighter for its operands (left "
+              "associative), the else-operand of ?: and the right operand of assignment recurse at their own level (right "
+              "associative), each level builds the right node kind; && and || evaluate children[1] only as the right operand "
+              "of the C++ operator after children[0]; ?: / if evaluate exactly one arm; all five loop implementations (while, "
+              "for, both ranged-for forms, the compiled for) catch Continue_Loop inside the iteration and Break_Loop around "
+              "the loop, switch catches Break_Loop per case and lets Continue_Loop through, the file level turns stray "
+              "break/continue into eval_error, function boundaries return the value carried by Return_Value; block, while, "
+              "for, ranged-for, switch, case, default, try and class evaluate their children under their own scope guard and "
+              "functions run in a new frame; assignment evaluates the right operand first, first assignment and `var x = e` "
+              "store clone_if_necessary(e), `:=` rebinds without copying; lambda captures are evaluated at creation and owned "
+              "by the callable. Not decided: agreement with a reference interpreter on generated programs; values."),
+        technique="table extraction (operator groups, precedence order, node kind per level, recursion level per operand) and shape rules over eval_internal bodies (conditional evaluation, handler placement, scope guards, evaluation order)",
+        ref="DESIGN.md section 4 C03"),
+    "C11": dict(
+        text=("Decides the ownership discipline the property rests on: (1) every non-owning Boxed_Value construction in the "
+              "library (std::ref / std::cref / address-of forms, all instantiations) is classified by what it refers to - "
+              "through reference locals, range-for variables, closure parameters and helper parameters one call level up - "
+              "and none refers to an automatic local, a by-value parameter, a catch parameter or an element of a container "
+              "kept alive only by a local handle; (2) every new-expression flows directly into a smart pointer and there is "
+              "no manual delete; (3) both conversion directions save the converted object while saves are enabled and return "
+              "that same object, and every C++ entry that dispatches with a freshly built conversion state enables the saves "
+              "first (or is a script built-in reached only through a call node); (4) every call node that opens a call frame "
+              "saves its evaluated arguments before dispatch (two documented exemptions); (5) Object_Data::get: owning forms "
+              "store a shared_ptr and are not references, non-owning forms are marked as references, the cached pointer "
+              "comes from the stored object. Not decided: destruction counts/times on generated programs; references that "
+              "host-registered C++ functions return into host-owned objects; the range()/front() route of ranged-for."),
+        technique="referent classification of non-owning boxes (intraprocedural + one call level), ownership rules, sibling agreement, must-precede and guard rules, overload table check",
+        ref="DESIGN.md section 4 C11"),
+    "C20": dict(
+        text=("Decides the mechanism by which a location reaches the error: eval_internal is called only by "
+              "AST_Node_Impl::eval, whose handler catches eval_error by reference, unconditionally appends *this once and "
+              "rethrows - so the call stack lists the active nodes innermost first; unresolved identifiers and failed "
+              "dispatches are converted to eval_error inside the failing node's own evaluation - so that node is the first "
+              "entry; every leaf node is located by a cursor copy taken from m_position after whitespace was skipped and never "
+              "moved, inner nodes start at their first child's start (the cursor when they have none) and end at the cursor, "
+              "all carry the file name installed before parsing; nodes synthesised by the optimizer take the location of the "
+              "node they replace; Position::operator++ starts a new line at column 1 after a line feed and advances the "
+              "column otherwise, operator-- is its inverse, the cursor starts at 1:1. Not decided: numeric agreement of every "
+              "reported position with ground truth on generated programs."),
+        technique="who-may-call + handler-shape rule, origin (def-use) rules for location arguments of every node construction, effect-table check of the cursor operators",
+        ref="DESIGN.md section 4 C20"),
+    "C17": dict(
+        text=("Decides the clauses of the statement whose truth is in the shape of the prelude's script text ('leave their inputs "
+              "unmodified', 'call the callback once per element in order', and safety on empty / short inputs), not the "
+              "functional result of each algorithm. The prelude is extracted from the raw string literal on every run, "
+              "parsed by an independent subset parser (anything outside the subset is analysis-broken, exit 2) and each of "
+              "its 69 functions is interpreted abstractly (per range view: lower bound on elements left; per loop iteration: "
+              "advances, which end was read, callback applications, counter steps): every range-driven loop advances its "
+              "view exactly once on every path that completes an iteration and counting loops step their counter once; "
+              "front/back/pop_front/pop_back are reached only with an element left (non-empty test or the function's size "
+              "guard minus elements consumed, short-circuit aware); the end that is read is the end that is dropped; a "
+              "callback applied to the current element is called exactly once per iteration; no parameter or alias of one "
+              "(:=, &) is assigned, stepped, mutated through a member or handed to back_inserter/bind(push_back) outside the "
+              "six functions whose contract is to mutate; on the C++ side Bidir_Range::pop_front/pop_back move only the "
+              "view's iterators. Not decided: results (counts, order of combination), behaviour of the C++ functions called."),
+        technique="script-level lint: independent subset parser + abstract interpretation (element lower bounds, per-iteration counters) + alias-aware who-may-mutate rule; one supporting rule over the C++ view class",
+        ref="DESIGN.md section 4 C17 and 8.5"),
 }
 
 NOT_YET = "check not built yet in this session (design in DESIGN.md section 4); will be claimed once its rules run clean both ways"
@@ -254,7 +329,7 @@ def main():
             "name": "chaifacts+rules",
             "path": "/verif/extractor/chaifacts.cc, /verif/verif/",
             "serves_properties": sorted(CLAIMED),
-            "kind_free_text": "libTooling fact extractor (structured statement/expression trees of every function body "
+            "kind_free_text": "(C17 additionally: independent parser for the prelude's script subset, verif/chaiparse.py) libTooling fact extractor (structured statement/expression trees of every function body "
                               "incl. template instantiations, records, statics, enums) + repository-specific Python rules "
                               "(dominance, must-pass-through, who-may-call, table agreement, exception flow)",
         }],
